@@ -336,6 +336,38 @@ def check_state(o, recs, kdev, ctx, root, hist):
                                   explanation="the before-rejection panel does not show every window's curve")
             for num in set(plt.get_fignums()) - nfig:
                 plt.close(num)
+        # ---- the figure is interrupted half-way (an error inside the drawing, or the user's Ctrl-C while the
+        #      "before rejection" panel is drawn): the object must still be as it was
+        for exc_type in (RuntimeError, KeyboardInterrupt):
+            work = copy.deepcopy(o)
+            wrecs = copy.deepcopy(recs)
+            real = work.mean_curve
+            calls = []
+
+            def interrupted(*a, _real=real, _calls=calls, _exc=exc_type, **k):
+                _calls.append(1)
+                if len(_calls) == 1:
+                    raise _exc("interrupted while drawing (injected by the harness)")
+                return _real(*a, **k)
+            work.mean_curve = interrupted
+            before = snapshot(work, wrecs)
+            nfig = set(plt.get_fignums())
+            ctx.count("transitions")
+            ctx.count("interrupted_figures")
+            try:
+                with contextlib.redirect_stdout(io.StringIO()), np.errstate(all="ignore"):
+                    PP.plot_pre_and_post_rejection(wrecs, work, distribution_mc="lognormal", distribution_fn="lognormal")
+            except BaseException as e:      # noqa: BLE001 - the injected interruption (or whatever it turned into)
+                if not isinstance(e, (exc_type, Exception)):
+                    raise
+            if snapshot(work, wrecs) != before:
+                ctx.violation(f"C20:plot_pre_and_post_rejection:object-modified:after-{exc_type.__name__}", root,
+                              detail=dict(hist=list(hist), interruption=exc_type.__name__,
+                                          at="first call of hvsr.mean_curve inside the function"),
+                              explanation="the figure was interrupted while it had altered the masks and left the "
+                                          "object changed")
+            for num in set(plt.get_fignums()) - nfig:
+                plt.close(num)
     # ---- azimuthal figures --------------------------------------------------------------
     if kind == "azi":
         for dmc in ("lognormal", "normal"):
@@ -343,10 +375,13 @@ def check_state(o, recs, kdev, ctx, root, hist):
                 work = copy.deepcopy(o)
                 detail = dict(hist=list(hist), distribution_mc=dmc, plot_mean_curve_peak_by_azimuth=pk)
                 nfig = set(plt.get_fignums())
-                res, exc = _guarded(lambda: PP.plot_azimuthal_contour_2d(work, distribution_mc=dmc,
-                                                                         plot_mean_curve_peak_by_azimuth=pk),
-                                    work, None, ctx, root, detail, "plot_azimuthal_contour_2d")
+                with _MeshSpy() as spy:
+                    res, exc = _guarded(lambda: PP.plot_azimuthal_contour_2d(work, distribution_mc=dmc,
+                                                                             plot_mean_curve_peak_by_azimuth=pk),
+                                        work, None, ctx, root, detail, "plot_azimuthal_contour_2d")
                 ctx.count("figures")
+                if exc is None and judgeable:
+                    judge_mesh(spy.meshes, work, dmc, ctx, root, detail, "plot_azimuthal_contour_2d")
                 if exc is None and pk and judgeable:
                     ctx.count("validated")
                     fig, (ax, cax) = res
@@ -360,10 +395,13 @@ def check_state(o, recs, kdev, ctx, root, hist):
                                           explanation="square markers are not mean_curve_peak_by_azimuth vs azimuth")
                     except Exception:   # noqa: BLE001
                         pass
-                res, exc = _guarded(lambda: PP.plot_azimuthal_contour_3d(work, distribution_mc=dmc,
-                                                                         plot_mean_curve_peak_by_azimuth=pk),
-                                    work, None, ctx, root, detail, "plot_azimuthal_contour_3d")
+                with _MeshSpy() as spy:
+                    res, exc = _guarded(lambda: PP.plot_azimuthal_contour_3d(work, distribution_mc=dmc,
+                                                                             plot_mean_curve_peak_by_azimuth=pk),
+                                        work, None, ctx, root, detail, "plot_azimuthal_contour_3d")
                 ctx.count("figures")
+                if exc is None and judgeable:
+                    judge_mesh(spy.meshes, work, dmc, ctx, root, detail, "plot_azimuthal_contour_3d")
                 for num in set(plt.get_fignums()) - nfig:
                     plt.close(num)
             work = copy.deepcopy(o)
@@ -380,6 +418,53 @@ def check_state(o, recs, kdev, ctx, root, hist):
                 judge_single_panel(axs[2], work, opts, ctx, root, detail, "plot_azimuthal_summary:curves-panel")
             for num in set(plt.get_fignums()) - nfig:
                 plt.close(num)
+
+
+class _MeshSpy:
+    """Records the (x, y, z) meshes handed to Axes.contourf / Axes3D.plot_surface while active."""
+
+    def __enter__(self):
+        import matplotlib.axes
+        from mpl_toolkits.mplot3d import Axes3D
+        self.meshes = []
+        self._saved = [(matplotlib.axes.Axes, "contourf", matplotlib.axes.Axes.contourf),
+                       (Axes3D, "plot_surface", Axes3D.plot_surface)]
+        for cls, name, orig in self._saved:
+            def spy(ax, *a, _orig=orig, **k):
+                if len(a) >= 3:
+                    self.meshes.append(tuple(np.array(v, dtype=float) for v in a[:3]))
+                return _orig(ax, *a, **k)
+            setattr(cls, name, spy)
+        return self
+
+    def __exit__(self, *exc):
+        for cls, name, orig in self._saved:
+            setattr(cls, name, orig)
+        return False
+
+
+def judge_mesh(meshes, o, dmc, ctx, root, detail, site):
+    """Every azimuth of the object is drawn with ITS mean curve: for each (azimuth_i, mean curve_i) of the
+    object the mesh has a row at that azimuth carrying that curve (a closing row at 180 degrees may be added)."""
+    ctx.count("meshes_judged")
+    try:
+        curves = np.asarray(o.mean_curve_by_azimuth(distribution=dmc), dtype=float)
+    except Exception:       # noqa: BLE001
+        return
+    if not meshes:
+        ctx.violation(f"C20:{site}:mesh:nothing-drawn", root, detail=detail,
+                      explanation="no mesh was handed to contourf / plot_surface")
+        return
+    _, azi, amp = meshes[-1]
+    for i, a in enumerate(o.azimuths):
+        rows = [r for r in range(azi.shape[0]) if np.all(azi[r] == float(a))]
+        if not any(amp[r].shape == curves[i].shape and close(amp[r], curves[i], rtol=1e-12) for r in rows):
+            ctx.violation(f"C20:{site}:mesh:azimuth-row-is-not-that-azimuths-curve", root,
+                          detail=dict(detail, azimuths=[float(v) for v in o.azimuths], azimuth=float(a),
+                                      mesh_azimuths=azi[:, 0].tolist()),
+                          expected=curves[i].tolist(), observed=[amp[r].tolist() for r in rows],
+                          explanation="the mesh row drawn at this azimuth is not the mean curve of this azimuth")
+            return
 
 
 def _stats_defined(o):
@@ -510,6 +595,9 @@ class AziSystem(c11.System):
         super().__init__(root)
         self.kdev = kdev
         self.ops = [op for op in self.ops if not (op["op"] == "F" and op["dfn"] == "normal")]
+        if root.get("ops_subset") == "MX-same":
+            self.ops = [op for op in self.ops if op["op"] == "M" or
+                        (op["op"] == "X" and op["az"] == op["az2"] == 0)]
 
     def initial(self, root):
         h = super().initial(root)
@@ -569,6 +657,13 @@ def _base_roots(tier):
         out.append(dict(kind="trad", grid="geo", F=7, shapes=["p1", "p5", "p3", "up"], depth=1, kdev=1))
         out.append(dict(kind="azi", grid="lin", F=7, shapes_by_az=[["p2", "p4", "p3"], ["p1", "twopk", "p5"]],
                         depth=1, kdev=1))
+        # azimuths that are not stored in ascending order
+        out.append(dict(kind="azi", grid="lin", F=7, shapes_by_az=[["p2", "p4", "p3"], ["p1", "twopk", "p5"],
+                                                                   ["p3", "p3", "p4"]],
+                        az_values=[90.0, 0.0, 45.0], depth=0, kdev=0))
+        # draw, swap WHICH window of an azimuth is rejected (every count stays), draw the same object again
+        out.append(dict(kind="azi", grid="lin", F=7, shapes_by_az=[["p2", "p4", "p3"], ["p1", "twopk", "p5"]],
+                        depth=2, kdev=0, reaccept=True, swap_same_azimuth=True, ops_subset="MX-same"))
         out.append(dict(kind="diffuse", grid="lin", values=[1, 2, 3, 2, 1, 2, 1], depth=1, kdev=1))
         return out
     for s in (["p2", "p4", "twopk", "p3"], ["p2", "p2", "steep_up"], ["p1", "p5", "p3", "up"],
@@ -581,6 +676,11 @@ def _base_roots(tier):
     for sh in ([["p2", "p4", "p3"], ["p1", "twopk", "p5"]], [["p2", "p4", "p3"]],
                [["p3", "p3", "p4"], ["q3", "p2", "tie"], ["p2", "p4", "p3"]]):
         out.append(dict(kind="azi", grid="lin", F=7, shapes_by_az=sh, depth=2 if len(sh) < 3 else 1, kdev=1))
+    out.append(dict(kind="azi", grid="lin", F=7, shapes_by_az=[["p2", "p4", "p3"], ["p1", "twopk", "p5"],
+                                                               ["p3", "p3", "p4"]],
+                    az_values=[90.0, 0.0, 45.0], depth=1, kdev=0))
+    out.append(dict(kind="azi", grid="lin", F=7, shapes_by_az=[["p2", "p4", "p3"], ["p1", "twopk", "p5"]],
+                    depth=3, kdev=0, reaccept=True, swap_same_azimuth=True, ops_subset="MX-same"))
     for vals in ([1, 2, 3, 2, 1, 2, 1], [1, 2, 3, 4, 5, 6, 7], [3, 1, 2, 1, 3, 1, 2]):
         out.append(dict(kind="diffuse", grid="lin", values=vals, depth=2, kdev=2))
     return out
